@@ -1,3 +1,5 @@
+//go:build verif
+
 // Package verifsync is mapped into the module under test by a build overlay
 // (/repo/verifsync, never on disk there). minify.go's import of "sync" is rerouted here
 // for simulation builds only. Mutexes keep their real implementation but never block a
